@@ -86,8 +86,8 @@ let () =
           let have = (match List.nth_opt g.pslots i with Some e -> e | None -> None) in
           if want <> have then Some (Printf.sprintf "%d.%d committed=%s engine=%s" pid i (show_entry want) (show_entry have)) else None)
           (List.init (List.length g.pslots + 2) (fun i -> i))) (List.rev !got) in
-      Printf.printf "flags log_ok=%s chains_ok=%s strict_ok=%s disk_ok=%s no_loser_apply=%s fresh_pages_ok=%s restart_ops_ok=%s losers=%d records=%d | model-vs-engine: %s | committed-vs-engine: %s\n"
-        (b2s (log_ok l)) (b2s (chains_ok l)) (b2s (strict_ok l)) (b2s (disk_ok l (List.rev !disk))) (b2s (no_loser_apply l)) (b2s (fresh_pages_ok l []))
+      Printf.printf "flags image_wf=%s log_ok=%s chains_ok=%s strict_ok=%s disk_ok=%s no_loser_apply=%s fresh_pages_ok=%s restart_ops_ok=%s losers=%d records=%d | model-vs-engine: %s | committed-vs-engine: %s\n"
+        (b2s (image_wf l (List.rev !disk))) (b2s (log_ok l)) (b2s (chains_ok l)) (b2s (strict_ok l)) (b2s (disk_ok l (List.rev !disk))) (b2s (no_loser_apply l)) (b2s (fresh_pages_ok l []))
         (b2s (List.for_all out_ok (recover_outs l ls (List.rev !disk))))
         (List.length ls) (List.length l)
         (String.concat " ; " mism) (String.concat " ; " cmism);
